@@ -2,7 +2,12 @@ pub mod c01;
 pub mod c02;
 pub mod c03;
 pub mod c04;
+pub mod c05;
+pub mod c06;
+pub mod c07;
+pub mod c09;
 pub mod c10;
+pub mod c19;
 pub mod c11;
 pub mod c12;
 pub mod c13;
@@ -20,7 +25,12 @@ pub fn lookup(id: &str) -> Option<CheckFn> {
         "C02" => c02::run,
         "C03" => c03::run,
         "C04" => c04::run,
+        "C05" => c05::run,
+        "C06" => c06::run,
+        "C07" => c07::run,
+        "C09" => c09::run,
         "C10" => c10::run,
+        "C19" => c19::run,
         "C11" => c11::run,
         "C12" => c12::run,
         "C13" => c13::run,
